@@ -8,7 +8,7 @@ RULE = ("calls of the real transaction parser (parse_tx -> fields, txid, wtxid, 
         "(0..4 inputs/outputs, script and witness-item lengths across 75/76, 252/253/254, 255/256, 520, 65535/65536, negative versions, "
         "maximal values, witness absent/partial/full), on every strict prefix of sample encodings, marker/flag corruptions, non-canonical "
         "and oversized compact sizes, counts beyond the data, hex text with spaces / upper case / odd length / non-hex characters, the "
-        "real-chain transactions of doc/txs; and of --tx amount prefixes (all shapes of decimal strings up to 8+ fractional digits, "
+        "real-chain transactions of doc/txs; and of --tx amount prefixes (all shapes of decimal strings up to 8+ fractional digits, exponent notation with the point moved / both signs / range boundaries / malformed exponent parts, "
         "negative, leading zeros, malformed); every call compared by TLC with spec/TxCodec.tla / spec/Amounts.tla")
 ASSUME = ["double SHA-256 from the JDK", "bytes after the lock time are outside the compared domain (the tool ignores them; recorded as an observation)"]
 
@@ -113,6 +113,20 @@ def amt_lines(chk):
         ip = str(rng.randrange(0, 10 ** rng.randrange(1, 10)))
         fp = "".join(rng.choice("0123456789") for _ in range(rng.randrange(0, 11)))
         vals.append(("-" if rng.random() < 0.1 else "") + ip + ("." + fp if fp else ""))
+    # exponent notation (the amount parser accepts it): the same numbers written with the point moved, exponents of both signs and both
+    # letters, results at the satoshi and at the 18-digit boundary, malformed exponent parts
+    vals += ["1e0", "1E0", "1e-8", "1e-9", "1.0e-8", "10e-9", "100e-10", "0.1e-7", "0.10e-7", "1e9", "1e10", "9.99999999e9", "92233720368.54775807e0", "9.2233720368e10",
+             "894.7024e-2", "89.47024e-1", "8947024e-6", "0.8947024e1", "0.08947024e+2", "8.947024E0", "8.9470240e0", "894702400e-8", "8947024000e-9", "1.5e-05", "1.50e-5",
+             "15e-6", "150e-7", "1e-05", "12.5e-1", "-1.5e-3", "-894.7024e-2", "1e", "1e+", "1e-", "e5", "1.e5", ".5e1", "1e5.0", "1e+-5", "1ee5", "1e 5", "1e0x5", "0e0", "0e-9", "0.0e5",
+             "0e99999999999999999999", "1e99999999999999999999", "1e-99999999999999999999", "1e00000000000000000001", "1e-00000000000000000008", "123456789012345678e-8",
+             "1234567890123456789e-9", "999999999999999999e-8", "1000000000000000000e-8", "1e17", "1.2e-2147483648", "1e2147483648", "3e-4294967296"]
+    for _ in range(150 if quick else 3000):
+        digits = "".join(rng.choice("0123456789") for _ in range(rng.randrange(1, 12))).lstrip("0") or "0"
+        k = rng.randrange(0, len(digits) + 1)
+        ip, fp = (digits[:len(digits) - k] or "0"), digits[len(digits) - k:]
+        ex = rng.randrange(-12, 12)
+        vals.append(("-" if rng.random() < 0.1 else "") + ip + ("." + fp if fp else "") + rng.choice("eE") + rng.choice(["", "+", "-"] if ex == 0 else ([""] if ex > 0 else ["-"]) + (["+"] if ex > 0 else []))
+                    + ("0" * rng.randrange(0, 3)) + str(abs(ex)))
     out = []
     for v in vals:
         if " " in v or v == "":
@@ -164,6 +178,8 @@ def make_lines(chk):
 
 def run(chk):
     chk.mc("MC_TxCodec", "MC_TxCodec.cfg")
+    chk.mc("MC_Amounts", "MC_Amounts.cfg")
+    chk.mc("MC_Amounts", "MC_Amounts_neg.cfg", must_hold=False)     # negative configuration: "no amount with an exponent is accepted" is refuted
     chk.exhaustive = False
     chk.build(mains=("btcdeb",))
     lines = make_lines(chk)
